@@ -14,35 +14,57 @@ use std::sync::mpsc::channel;
 pub struct WatchAlloc;
 static WATCH_ON: AtomicBool = AtomicBool::new(false);
 static WATCH_MAX: AtomicUsize = AtomicUsize::new(0);
+/// bytes allocated and not yet freed since the scope began (allocations from before the scope that are freed inside
+/// only make it smaller) and its peak: many medium sized reservations add up
+static WATCH_LIVE: std::sync::atomic::AtomicIsize = std::sync::atomic::AtomicIsize::new(0);
+static WATCH_PEAK: std::sync::atomic::AtomicIsize = std::sync::atomic::AtomicIsize::new(0);
+fn live_add(d: isize) {
+    let l = WATCH_LIVE.fetch_add(d, Ordering::Relaxed) + d;
+    if d > 0 {
+        WATCH_PEAK.fetch_max(l, Ordering::Relaxed);
+    }
+}
 unsafe impl GlobalAlloc for WatchAlloc {
     unsafe fn alloc(&self, l: Layout) -> *mut u8 {
         if WATCH_ON.load(Ordering::Relaxed) {
             WATCH_MAX.fetch_max(l.size(), Ordering::Relaxed);
+            live_add(l.size() as isize);
         }
         System.alloc(l)
     }
     unsafe fn dealloc(&self, p: *mut u8, l: Layout) {
+        if WATCH_ON.load(Ordering::Relaxed) {
+            live_add(-(l.size() as isize));
+        }
         System.dealloc(p, l)
     }
     unsafe fn realloc(&self, p: *mut u8, l: Layout, n: usize) -> *mut u8 {
         if WATCH_ON.load(Ordering::Relaxed) {
             WATCH_MAX.fetch_max(n, Ordering::Relaxed);
+            live_add(n as isize - l.size() as isize);
         }
         System.realloc(p, l, n)
     }
     unsafe fn alloc_zeroed(&self, l: Layout) -> *mut u8 {
         if WATCH_ON.load(Ordering::Relaxed) {
             WATCH_MAX.fetch_max(l.size(), Ordering::Relaxed);
+            live_add(l.size() as isize);
         }
         System.alloc_zeroed(l)
     }
 }
 fn watch<T>(f: impl FnOnce() -> T) -> (T, usize) {
     WATCH_MAX.store(0, Ordering::Relaxed);
+    WATCH_LIVE.store(0, Ordering::Relaxed);
+    WATCH_PEAK.store(0, Ordering::Relaxed);
     WATCH_ON.store(true, Ordering::Relaxed);
     let r = f();
     WATCH_ON.store(false, Ordering::Relaxed);
     (r, WATCH_MAX.load(Ordering::Relaxed))
+}
+/// peak of the live bytes of the last watched scope
+fn last_peak() -> usize {
+    WATCH_PEAK.load(Ordering::Relaxed).max(0) as usize
 }
 
 /// the repository's tests directory (example files, plugin configs); ADLT_REPO overrides /repo (used for snapshot runs)
@@ -76,6 +98,8 @@ pub struct ChainStats {
     /// largest single allocation request in the parsing and plugin scopes
     pub max_alloc_parse: usize,
     pub max_alloc_plugins: usize,
+    /// peak of the bytes that were allocated and not yet freed inside the plugin scope
+    pub peak_live_plugins: usize,
 }
 
 fn filters() -> Vec<Filter> {
@@ -93,10 +117,22 @@ fn filters() -> Vec<Filter> {
 
 /// run everything C03 names on one input. Panics propagate to the caller.
 pub fn chain(ext: &str, data: &[u8], with_plugins: bool) -> ChainStats {
+    chain_opts(ext, data, with_plugins, 5000)
+}
+pub fn chain_opts(ext: &str, data: &[u8], with_plugins: bool, max_msgs: usize) -> ChainStats {
     let ns = get_new_namespace();
     let (msgs, max_alloc_parse) = watch(|| {
         let it = get_dlt_message_iterator(ext, 0, std::io::BufReader::with_capacity(128 * 1024, Cursor::new(data)), ns, None, Some(1_600_000_000_000_000), None);
-        let msgs: Vec<DltMessage> = it.take(5000).collect();
+        let mut msgs: Vec<DltMessage> = it.take(max_msgs).collect();
+        // the command line tools read text formats twice: the second time with the reception time of the first
+        // message of the first pass as reference time
+        if ext != "dlt" && data.len() % 2 == 0 {
+            if let Some(t) = msgs.first().map(|m| m.reception_time_us) {
+                let ns2 = get_new_namespace();
+                let it = get_dlt_message_iterator(ext, 0, std::io::BufReader::with_capacity(128 * 1024, Cursor::new(data)), ns2, Some(t), Some(1_600_000_000_000_000), None);
+                msgs = it.take(max_msgs).collect();
+            }
+        }
         let mut eac = eac_stats::EacStats::new();
         let mut sink = Vec::new();
         for m in &msgs {
@@ -144,6 +180,7 @@ pub fn chain(ext: &str, data: &[u8], with_plugins: bool) -> ChainStats {
         }
     }
     let mut max_alloc_plugins = 0;
+    let mut peak_live_plugins = 0;
     if with_plugins {
         let (_, a) = watch(|| {
             let mut plugins = mk_plugins();
@@ -164,8 +201,9 @@ pub fn chain(ext: &str, data: &[u8], with_plugins: bool) -> ChainStats {
             }
         });
         max_alloc_plugins = a;
+        peak_live_plugins = last_peak();
     }
-    ChainStats { msgs: n, lifecycles, max_alloc_parse, max_alloc_plugins }
+    ChainStats { msgs: n, lifecycles, max_alloc_parse, max_alloc_plugins, peak_live_plugins }
 }
 
 /// allocation bound of C03: a single request may not exceed this in the parse/plugin scopes
